@@ -164,3 +164,14 @@ Definition res_code (r : res) : list Z :=
   match r with
   | RFull v => [0; v; 0] | ROk v len => [1; v; len] | REmpty => [2; 0; 0] | RGot v => [3; v; 0] | RLen n => [4; n; 0]
   end.
+
+(* a response belongs to a call *)
+Definition matches (o : op) (r : res) : Prop :=
+  match o, r with
+  | OpPub v, RFull v' => v' = v
+  | OpPub v, ROk v' _ => v' = v
+  | OpCons, REmpty => True
+  | OpCons, RGot _ => True
+  | OpLen, RLen _ => True
+  | _, _ => False
+  end.
